@@ -13,6 +13,7 @@ package sub
 //@   immutable: s p
 //@
 //@ struct context
+//@   never_closed: recvQ
 //@   close_token closeQ when closed
 //@   close_token sizeQ
 //@   guarded_by s.Mutex: recvQLen recvQ sizeQ recvExpire closed subs
